@@ -198,11 +198,13 @@ class World(BaseWorld):
                 ops.append({'op': 'solve_system', 'guess': ro.choice(['zeros', 'prev', 'prev'])})
             elif r < 0.8:
                 ops.append({'op': 'create'})
-                ops.append({'op': 'solve_handle', 'which': -1, 'guess': ro.choice(['zeros', 'prev'])})
+                ops.append({'op': 'solve_handle', 'which': -1, 'guess': ro.choice(['zeros', 'prev']),
+                            'abort_at': ro.choice([None, None, None, 0, 2, 7, 20])})
             else:
                 ops.append({'op': 'create'})
             if ro.random() < 0.35:
-                ops.append({'op': 'solve_handle', 'which': ro.randrange(0, 4), 'guess': 'zeros'})
+                ops.append({'op': 'solve_handle', 'which': ro.randrange(0, 4), 'guess': 'zeros',
+                            'abort_at': ro.choice([None, None, 0, 1, 3, 10, 30])})
             if ro.random() < 0.15:
                 ops.append({'op': 'check'})
         batch = 'fault_free' if plan['mode'] == 'real' and not use_file else 'fault_injecting'
@@ -678,6 +680,22 @@ class World(BaseWorld):
                     ctx.nontrivial = True
                 if handle_digest(pp, P) != h['digest']:
                     raise Violation('handle_changed_by_later_edit', 'solve_handle', {'created_at_step': h['step']}, step)
+                if op.get('abort_at') is not None:
+                    # the user interrupts a first attempt at an arbitrary callback, then simply calls solve again
+                    sr.abort_next = int(op['abort_at'])
+                    sr.force_index = 10 ** 6 + step
+                    kw = dict(method=user['method'], options=copy.deepcopy(user['options']))
+                    try:
+                        with simroot.installed(sr):
+                            with warnings.catch_warnings():
+                                warnings.simplefilter('ignore')
+                                with np.errstate(all='ignore'):
+                                    P.solve(**kw)
+                    except simroot.SolveAborted:
+                        ctx.probe('solve_aborted_then_retried')
+                    except Exception:
+                        pass
+                    sr.abort_next = None
                 idx = nsolve[0]
                 nsolve[0] += 1
                 Q = fresh_prism(h['rec'], step, 'solve_handle')
@@ -740,14 +758,14 @@ class World(BaseWorld):
                 'missing_only_closure', 'missing_only_omega', 'create_or_solve_after_edit_after_create', 'inplace_domain_length_edit',
                 'inplace_domain_edit', 'file_rewritten_between_creates', 'solve_old_handle_after_edit', 'list_x_list_assignment',
                 'converged_solve_compared', 'solve_bit_identical_to_fresh', 'sweep_guess_previous_solution', 'stale_table_at_create',
-                'rank1', 'rank2', 'rank3', 'handle_created']
+                'rank1', 'rank2', 'rank3', 'handle_created', 'solve_aborted_then_retried']
 
     def rule(self):
         return ('Each run = one seed -> an empty System (1-3 types) + a history: the assignments that establish a drawn target system (single keys '
                 'and lists, either key order, shuffled; in 12% of runs one item is never assigned) with create/solve/check attempts interleaved, '
                 'then 1-4 sweep steps of {re-assign density | diameter | kT | potential | closure | omega | replace Domain | edit Domain dr/dk/length '
                 'in place | rewrite the omega file under a durability fault} followed by System.solve (guess zeros | previous solution) or '
-                'createPRISM + PRISM.solve, and solves of older handles. Checks: partial model => ValueError, root finder never called, System '
+                'createPRISM + PRISM.solve (in a third of the cases a first attempt is aborted by the user after k callbacks and retried), and solves of older handles. Checks: partial model => ValueError, root finder never called, System '
                 'digest unchanged; complete => closure class/flag/sigma/potential(r)/kT and omega = rho_site o omega_spec(k) equal the parameter '
                 'record, System digest unchanged by create/solve, digest of every unsolved handle unchanged by later edits and file rewrites, every '
                 'solve equals the solve of a System freshly built from the record (same solver behaviour, same guess) to 1e-8 when the wiring is '
